@@ -1,0 +1,13 @@
+//go:build verif
+
+package k256
+
+// Contracts for the deductive checker in /verif (comment-only; compiled only under the verif tag).
+
+//@ func (*Curve).MultiScalarMul
+//@   property C14
+//@   nopanic
+//@   ensures len(scalars) != len(points) ==> err != nil
+//@   ensures len(scalars) == len(points) ==> err == nil && result != nil
+//@   loop range(points)
+//@     invariant len(pts) == len(points) && len(scs) == len(scalars)
